@@ -40,6 +40,79 @@ SEMANTICS = [
 ]
 
 
+def tree_hash(repo_root, tier):
+    """Hash of everything a verdict depends on: the repository sources, the contracts, pyvc."""
+    h = hashlib.sha256()
+    roots = [os.path.join(repo_root, "xandikos"), os.path.join(VERIF_ROOT, "contracts"), os.path.join(VERIF_ROOT, "pyvc")]
+    for r in roots:
+        for d, dirs, files in sorted(os.walk(r)):
+            dirs[:] = sorted(x for x in dirs if x not in ("__pycache__", "tests"))
+            for f in sorted(files):
+                if f.endswith(".py"):
+                    p_ = os.path.join(d, f)
+                    h.update(p_.encode())
+                    with open(p_, "rb") as fh:
+                        h.update(fh.read())
+    h.update(tier.encode())
+    for k in ("PYVC_ABS_MS", "PYVC_Z3_MS", "PYVC_CVC5_S"):
+        h.update(os.environ.get(k, "").encode())
+    return h.hexdigest()[:20]
+
+
+class ResultCache:
+    """Per-function verification results, shared between the checks of one run of the whole
+    suite (several properties depend on the same functions).  Keyed by tree_hash: any change to
+    /repo, the contracts or pyvc invalidates everything.  Lives under /verif/scratch (untracked)."""
+
+    def __init__(self, key):
+        self.dir = os.path.join(VERIF_ROOT, "scratch", "cache", key)
+        base = os.path.dirname(self.dir)
+        os.makedirs(self.dir, exist_ok=True)
+        for other in os.listdir(base):
+            if other != key:
+                import shutil
+
+                shutil.rmtree(os.path.join(base, other), ignore_errors=True)
+
+    def path(self, q):
+        return os.path.join(self.dir, slug(q) + ".json")
+
+    def get(self, q):
+        if os.environ.get("PYVC_NO_CACHE"):
+            return None
+        try:
+            with open(self.path(q)) as f:
+                return json.load(f)
+        except (FileNotFoundError, ValueError):
+            return None
+
+    def put(self, q, rep):
+        with open(self.path(q) + ".tmp", "w") as f:
+            json.dump(rep, f, default=str)
+        os.replace(self.path(q) + ".tmp", self.path(q))
+
+
+class CachedReport:
+    def __init__(self, d):
+        self.__dict__.update(d)
+        self.dropped = set(d["dropped"])
+        self.inlined = set(d["inlined"])
+        self.called = set(d["called"])
+
+    def summary(self):
+        agg = {}
+        for o in self.obligations:
+            agg.setdefault(o["name"], []).append(o)
+        return agg
+
+
+def report_to_dict(rep):
+    return {"qualname": rep.qualname, "file": rep.file, "line": rep.line, "hash": rep.hash, "obligations": rep.obligations,
+            "paths": rep.paths, "unsupported": rep.unsupported, "errors": rep.errors, "dropped": sorted(rep.dropped),
+            "inlined": sorted(rep.inlined), "called": sorted(rep.called), "seconds": rep.seconds,
+            "solver_seconds": rep.solver_seconds}
+
+
 def load_json(p, default):
     try:
         with open(p) as f:
@@ -83,7 +156,9 @@ def main(argv=None):
     repo = Repo()
     reg = Registry(repo)
     lock = load_json(LOCK, {})
-    known = [k for k in load_json(KNOWN, []) if k.get("property") == pid and k.get("kind") == "known"]
+    # a known finding is identified by obligation + witness class; it is recognised under every
+    # property whose check includes that obligation
+    known = [k for k in load_json(KNOWN, []) if k.get("kind") == "known" and k.get("obligation")]
     os.makedirs(EVID, exist_ok=True)
     os.makedirs(REPLAYS, exist_ok=True)
 
@@ -100,12 +175,21 @@ def main(argv=None):
     inlined = set()
     thorough = args.tier == "thorough"
     z3_ms = 30000 if thorough else None
+    cache = ResultCache(tree_hash(repo.root, args.tier))
+    cache_hits = 0
 
     for q in spec["functions"]:
         if q not in reg.contracts:
             checker_errors.append(f"no contract registered for {q}")
             continue
-        rep = verify_function(repo, reg, q, z3_ms=z3_ms)
+        cached = cache.get(q)
+        if cached is not None:
+            rep = CachedReport(cached)
+            cache_hits += 1
+        else:
+            rep = verify_function(repo, reg, q, z3_ms=z3_ms)
+            if not rep.errors:
+                cache.put(q, report_to_dict(rep))
         solver_seconds += rep.solver_seconds
         dropped |= rep.dropped
         inlined |= rep.inlined
@@ -215,6 +299,7 @@ def main(argv=None):
             "functions_under_contract": functions,
             "backends": backends,
             "solver_seconds": round(solver_seconds, 2),
+            "functions_reused_from_this_run_cache": cache_hits,
             "samples": samples,
             "explanation": explanation or "all obligations generated from the current source were discharged",
             "undecided": undecided,
